@@ -195,7 +195,7 @@ def _uni(case, ctx):
     ga = np.asarray(d.draw_sample(m, random_state=np.random.default_rng(seed)))
     gb = np.asarray(d.draw_sample(m, random_state=np.random.default_rng(seed)))
     ctx.check("c07.reproducible", np.array_equal(ga, gb), f"{fam}: identically seeded Generators give different samples", family=fam, seed=seed)
-    c_ = np.asarray(d.draw_sample(m, random_state=seed + 1))
+    c_ = np.asarray(d.draw_sample(m, random_state=(seed + 1) % 2**32))  # (stays a valid seed for seed = 2**32 - 1)
     ctx.check("c07.seeds-differ", not np.array_equal(a, c_), f"{fam}: different seeds give identical samples", family=fam)
     # vector parameters -> (n, len) draws, column j follows parameter j
     names = R.PARAMS[fam]
@@ -311,7 +311,7 @@ def _joint(case, ctx):
     ga = np.asarray(model.draw_sample(m, random_state=np.random.default_rng(seed)))
     gb = np.asarray(model.draw_sample(m, random_state=np.random.default_rng(seed)))
     ctx.check("c07.reproducible", np.array_equal(ga, gb), "joint: identically seeded Generators give different samples", seed=seed)
-    c2 = np.asarray(model.draw_sample(m, random_state=seed + 1))
+    c2 = np.asarray(model.draw_sample(m, random_state=(seed + 1) % 2**32))
     ctx.check("c07.seeds-differ", not np.array_equal(a, c2), "joint: different seeds give identical samples")
     for nn in (1, 2):
         s_ = np.asarray(model.draw_sample(nn, random_state=seed))
